@@ -22,6 +22,9 @@ pub enum Step {
     /// extract-pub of the newest string with a near-miss of the current password (appended newline,
     /// appended space, trimmed, CRLF): a different password, so it must be refused (C15)
     TryVariantPassword(u8),
+    /// change-pass applied a second time to an EARLIER string of the history (a branch): its salt must
+    /// be new as well
+    ChangePassFromEarlier(usize, String),
     /// PRIVATE-KEY argument with one bit of the 84-byte blob flipped, or another text-level damage
     Damaged(u32, u8),
 }
@@ -114,6 +117,7 @@ impl Family for B4 {
                 3 => steps.push(Step::ChangePassWrongOld(format!("{}-wrong", history[history.len() - 1]))),
                 4 => steps.push(Step::Damaged(rng.below(672) as u32, rng.below(4) as u8)),
                 5 => steps.push(Step::TryVariantPassword(rng.below(7) as u8)),
+                6 => steps.push(Step::ChangePassFromEarlier(rng.usize_below(history.len()), pw(rng))),
                 _ => {}
             }
         }
@@ -146,7 +150,8 @@ impl Family for B4 {
         };
         // the key: generated by the tool, or given (locked by the reference)
         let (sk, mut current, pub_line): ([u8; 32], String, Option<String>) = if s.start_generated {
-            let mut inv = Invocation::new(&["key", "generate", "--env-pass"]).env("KESTREL_PASSWORD", &s.first_password);
+            // a shell that exports both variables globally: generation must use KESTREL_PASSWORD
+            let mut inv = Invocation::new(&["key", "generate", "--env-pass"]).env("KESTREL_PASSWORD", &s.first_password).env("KESTREL_NEW_PASSWORD", "stray-new-password-for-a-later-change");
             inv.stdin = Stdin::Pipe(b"history-key\n".to_vec());
             let fin = run_inv(inv, &mut th, &mut all_output);
             let text = String::from_utf8_lossy(&fin.stdout).to_string();
@@ -241,6 +246,22 @@ impl Family for B4 {
                         out.violations.push(viol("C16", "no_error_line", format!("step {}", i)));
                     }
                 }
+                Step::ChangePassFromEarlier(k, newp) => {
+                    let k = *k % strings.len();
+                    let fin = run_inv(Invocation::new(&["key", "change-pass", &strings[k], "--env-pass"]).env("KESTREL_PASSWORD", &passwords[k]).env("KESTREL_NEW_PASSWORD", newp), &mut th, &mut all_output);
+                    let so = String::from_utf8_lossy(&fin.stdout).to_string();
+                    if let Some(l) = so.lines().find(|l| l.starts_with("PrivateKey = ")) {
+                        if let Some((salt, _)) = rk::parse_locked(l["PrivateKey = ".len()..].trim()) {
+                            if salts.contains(&salt.to_vec()) {
+                                out.violations.push(viol("C16", "salt_reused", format!("step {}: changing the password of an earlier string again produced a salt seen before ({})", i, to_hex(&salt[..8]))));
+                                out.violations.push(viol("C07", "cli_change_pass_salt_reused", format!("step {}: a second change-pass on the same locked string did not draw a fresh salt", i)));
+                            }
+                            salts.push(salt.to_vec());
+                        }
+                    } else {
+                        out.violations.push(viol("C16", "change_pass_failed", format!("step {}: change-pass on earlier string {}: {:?} {}", i, k, fin.status, fin.stderr_text())));
+                    }
+                }
                 Step::TryVariantPassword(kind) => {
                     let variant = match kind {
                         0 => format!("{}\n", cur_pw),
@@ -329,7 +350,7 @@ impl Family for B4 {
         out.trace_hash = th;
         out.steps = inv_n;
         out.count("probe.tty_stdout_histories", s.tty_stdout as u64);
-        out.signature = format!("b4|{}{}|{}|{}", s.start_generated, if s.tty_stdout { "T" } else { "" }, s.steps.iter().map(|t| match t { Step::ChangePass(p) => if p.is_empty() { 'e' } else if !p.is_ascii() { 'u' } else if p.len() >= 64 { 'L' } else { 'c' }, Step::ExtractPub => 'x', Step::TryOldPassword(_) => 'o', Step::TryVariantPassword(_) => 'v', Step::ChangePassWrongOld(_) => 'w', Step::Damaged(..) => 'd' }).collect::<String>(), s.use_at_end);
+        out.signature = format!("b4|{}{}|{}|{}", s.start_generated, if s.tty_stdout { "T" } else { "" }, s.steps.iter().map(|t| match t { Step::ChangePass(p) => if p.is_empty() { 'e' } else if !p.is_ascii() { 'u' } else if p.len() >= 64 { 'L' } else { 'c' }, Step::ExtractPub => 'x', Step::TryOldPassword(_) => 'o', Step::TryVariantPassword(_) => 'v', Step::ChangePassFromEarlier(..) => 'b', Step::ChangePassWrongOld(_) => 'w', Step::Damaged(..) => 'd' }).collect::<String>(), s.use_at_end);
         out.nontrivial = s.steps.len() >= 2;
         out
     }
